@@ -30,6 +30,8 @@ type c20Op struct {
 	// join+remove: the node removed at the same time and the member the removal goes through
 	Other int `json:"other,omitempty"`
 	Via2  int `json:"via2,omitempty"`
+	// join: the node comes back as a new machine - empty store, another address - under its old id
+	Fresh bool `json:"fresh,omitempty"`
 }
 type c20Case struct {
 	Script  []c20Op                      `json:"script"`
@@ -278,6 +280,13 @@ func runC20Scenario(c *c20Case, st *stats, idx int, scratch string) {
 			}
 		case "join":
 			n, via := node(op.Node), node(op.Via)
+			if op.Fresh && n.srv == nil {
+				os.RemoveAll(n.dir)
+				os.MkdirAll(n.dir, 0755)
+				n.port = freePort()
+				n.snap = 0
+				c.Addrs[fmt.Sprint(n.id)] = n.addr()
+			}
 			n.join = []string{via.addr()}
 			var err error
 			if n.srv != nil {
@@ -523,6 +532,17 @@ func c20Scripts(r *rng, n int, thorough bool) []c20Case {
 	add("a node is removed while a member is cut off; another member restarts with the cut-off member as its seed; the cut heals during the handshake: the answer must not bring the removed node back",
 		c20Op{Kind: "boot", Node: 1}, c20Op{Kind: "join", Node: 2, Via: 1}, c20Op{Kind: "join", Node: 3, Via: 2}, c20Op{Kind: "join", Node: 4, Via: 1}, c20Op{Kind: "settle"},
 		c20Op{Kind: "cut", Node: 2}, c20Op{Kind: "remove", Node: 4}, c20Op{Kind: "restart-heal", Node: 3}, c20Op{Kind: "settle"})
+	add("a removed node's id is taken by a new machine (empty store, another address) that joins through a follower, then restarts",
+		c20Op{Kind: "boot", Node: 1}, c20Op{Kind: "join", Node: 2, Via: 1}, c20Op{Kind: "join", Node: 3, Via: 1}, c20Op{Kind: "settle"},
+		c20Op{Kind: "remove", Node: 3}, c20Op{Kind: "settle"}, c20Op{Kind: "join", Node: 3, Via: 2, Fresh: true}, c20Op{Kind: "settle"},
+		c20Op{Kind: "restart", Node: 3}, c20Op{Kind: "settle"})
+	add("a removed node's id is taken by a new machine that joins through a follower: its own view right after the join",
+		c20Op{Kind: "boot", Node: 1}, c20Op{Kind: "join", Node: 2, Via: 1}, c20Op{Kind: "join", Node: 3, Via: 1}, c20Op{Kind: "settle"},
+		c20Op{Kind: "remove", Node: 3}, c20Op{Kind: "settle"}, c20Op{Kind: "join", Node: 3, Via: 2, Fresh: true}, c20Op{Kind: "settle"})
+	add("a removed node's id is taken by a new machine, which is then stopped and started from its own store without a seed",
+		c20Op{Kind: "boot", Node: 1}, c20Op{Kind: "join", Node: 2, Via: 1}, c20Op{Kind: "join", Node: 3, Via: 1}, c20Op{Kind: "settle"},
+		c20Op{Kind: "remove", Node: 3}, c20Op{Kind: "settle"}, c20Op{Kind: "join", Node: 3, Via: 2, Fresh: true}, c20Op{Kind: "settle"},
+		c20Op{Kind: "stop", Node: 3}, c20Op{Kind: "start", Node: 3}, c20Op{Kind: "settle"})
 	add("a join through one follower and a removal through another at the same moment: what is acknowledged is applied",
 		c20Op{Kind: "boot", Node: 1}, c20Op{Kind: "join", Node: 2, Via: 1}, c20Op{Kind: "join", Node: 3, Via: 1}, c20Op{Kind: "join", Node: 4, Via: 1}, c20Op{Kind: "settle"},
 		c20Op{Kind: "join+remove", Node: 5, Via: 2, Other: 4, Via2: 3}, c20Op{Kind: "settle"})
